@@ -899,7 +899,7 @@ def _short(v):
         return str(val)[:80]
 
 
-TAGS = {"mapped_x": ["x.prec"], "heat_pde": ["y.cov"], "userdef_x": ["y.cov"], "gamma_mv": [], "kl_nonlin": ["y.cov"], "lin_step": ["y.cov"], "selfnamed": ["y.cov"], "cov_sdt": ["y.cov"], "cov_sd": ["y.cov"], "direct_param": ["y.cov"], "sigdep_x": ["x.prec", "y.cov"], "reg_d": ["x.prec"], "lin_geom": ["y.cov"], "lognormal_cov_s": ["x.cov"], "lin_sqrtprecF": ["y.cov"], "lin_s": ["y.cov"], "lin_d_s": ["x.prec", "y.cov"], "gmrf_d_s": ["x.prec", "y.prec"], "lmrf_d": ["x.scale"],
+TAGS = {"mrf2d": [], "mapped_x": ["x.prec"], "heat_pde": ["y.cov"], "userdef_x": ["y.cov"], "gamma_mv": [], "kl_nonlin": ["y.cov"], "lin_step": ["y.cov"], "selfnamed": ["y.cov"], "cov_sdt": ["y.cov"], "cov_sd": ["y.cov"], "direct_param": ["y.cov"], "sigdep_x": ["x.prec", "y.cov"], "reg_d": ["x.prec"], "lin_geom": ["y.cov"], "lognormal_cov_s": ["x.cov"], "lin_sqrtprecF": ["y.cov"], "lin_s": ["y.cov"], "lin_d_s": ["x.prec", "y.cov"], "gmrf_d_s": ["x.prec", "y.prec"], "lmrf_d": ["x.scale"],
         "two_lik": ["y2.cov"], "nonlin": ["y.cov"], "xz_s": ["y.cov"], "laplace_b": ["x.scale"],
         "mean_m": ["x.mean", "y.cov"], "cmrf_d": ["x.scale"], "lognormal": ["y.cov"]}
 
@@ -909,6 +909,8 @@ def gen_case(r, tier):
     n = r.randint(2, 5)
     rec = {"graph": g, "n": n, "m": n + r.randint(0, 2), "zseed": r.randrange(1, 10 ** 6),
            "bc": r.choice(["zero", "zero", "neumann"])}
+    if g == "mrf2d":
+        rec["mrf"] = r.choice(["gmrf", "lmrf"])
     if g == "mapped_x":
         rec["xform"] = r.choice(["array", "cuqi_par", "cuqi_fun", "cuqi_fun"])
     sc = {"graph": rec, "components": r.random() < 0.7}
